@@ -72,6 +72,69 @@ def job_of(proto, hist, addr):
     return {"msgs": msgs}
 
 
+def sets_of(proto, op):
+    """the set (without message header) an operation puts on the wire"""
+    m = tpl_msg(proto, op["i"], op["v"]) if op["op"] == "announce" else data_msg(proto, op["i"])
+    return m[16:] if proto == "ipfix" else m[20:]
+
+
+def job_merged(proto, hist, addr, cuts=()):
+    """the same history with every maximal run of consecutive datagram operations of one exporter sent as ONE
+    message holding several sets ('announced earlier in the same message'); cuts: operation indices at which a new
+    message is started anyway.  Returns (job, groups)."""
+    msgs, groups = [], []
+    for n, op in enumerate(hist):
+        if n not in cuts and op["op"] in ("announce", "data") and groups and groups[-1][0] == "wire" and hist[groups[-1][1][0]]["e"] == op["e"]:
+            groups[-1][1].append(n)
+        elif op["op"] in ("announce", "data"):
+            groups.append(("wire", [n]))
+        else:
+            groups.append(("peer", [n]))
+    for kind, idx in groups:
+        op0 = hist[idx[0]]
+        exp = addr[op0["e"]]
+        if kind == "peer":
+            msgs.append(job_of(proto, [op0], addr)["msgs"][0])
+            continue
+        body = [o for n in idx for o in sets_of(proto, hist[n])]
+        if proto == "ipfix":
+            msgs.append({"exp": exp, "buf": [0, 10] + u16(16 + len(body)) + [0] * 12 + body})
+        else:
+            msgs.append({"exp": exp, "buf": [0, 9, 0, len(idx)] + [0] * 16 + body})
+    return {"msgs": msgs}, groups
+
+
+def judge_merged(ctx, proto, hist, addr, job, groups, r):
+    name = codec.P[proto]["name"]
+    key = [proto, "merged", [g[1] for g in groups], [(addr[o["e"]], o["op"], o["i"], o["v"]) for o in hist]]
+    ctx.count(key, nontrivial=any(len(g[1]) > 1 for g in groups))
+    if r.get("skipped") or "killed" in r:
+        return
+    for (kind, idx), x in zip(groups, r["res"]):
+        if kind == "peer":
+            continue
+        want, unknown = [], False
+        for n in idx:
+            op = hist[n]
+            if op["op"] == "data":
+                if op["v"] == 0:
+                    unknown = True
+                else:
+                    want += expected_recs(op["v"])
+        if x["st"] == "panic":
+            ctx.violation("%s: a message holding several sets panicked: %s" % (name, x["panic"]), {"history": hist, "addresses": addr})
+            return
+        got = [[(f["i"], tuple(f["v"]["o"])) for f in rec] for rec in x["recs"]]
+        st = "nonfatal" if unknown else "ok"
+        if x["st"] != st or got != want:
+            ops = [(hist[n]["op"], hist[n]["i"], hist[n]["v"]) for n in idx]
+            ctx.violation("%s: one message from exporter %s holding the sets %s: every data set must be decoded with the template "
+                          "announced last before it (also earlier in the same message); decoded %s with %d records, expected %s with %d"
+                          % (name, addr[hist[idx[0]]["e"]], ops, x["st"], len(got), st, len(want)),
+                          {"history": hist, "addresses": addr, "message_ops": ops}, key="same-message")
+            return
+
+
 def judge(ctx, proto, hist, addr, job, r):
     name = codec.P[proto]["name"]
     key = [proto, [(addr[o["e"]], o["op"], o["i"], o["v"]) for o in hist]]
@@ -133,6 +196,11 @@ def check(ctx):
                        files={"run.cfg": CFG % dict(exps='"ea", "eb", "ec"', peers="FALSE", dev="FALSE", ops=ops, emit="TRUE")})
     r2 = ctx.tlc_model("TemplateCacheMC", "run2.cfg", want_cases=True,
                        files={"run2.cfg": CFG % dict(exps='"ea", "eb"', peers="TRUE", dev="FALSE", ops=ops, emit="TRUE")})
+    # one exporter, one id, longer histories: every way of splitting them into messages is replayed
+    r3 = ctx.tlc_model("TemplateCacheMC", "run3.cfg", want_cases=True,
+                       files={"run3.cfg": (CFG % dict(exps='"ea"', peers="FALSE", dev="FALSE", ops=6 if thorough else 5, emit="TRUE"))
+                              .replace("Ids = {256, 257}", "Ids = {256}")})
+    hists_one = [c["hist"] for c in r3.cases if len(c["hist"]) >= 3 and any(o["op"] == "data" for o in c["hist"])]
     hists = [c["hist"] for c in r1.cases if c["hist"]]
     hists_peer = [c["hist"] for c in r2.cases if c["hist"] and any(o["op"].startswith("peer") for o in c["hist"])]
     ctx.note("TLC emitted %d + %d histories" % (len(hists), len(hists_peer)))
@@ -155,6 +223,25 @@ def check(ctx):
         for (h, addr), job, r in zip(meta, jobs, res):
             judge(ctx, proto, h, addr, job, r)
         ctx.traces_validated += len(jobs)
+        # the same histories with consecutive operations of one exporter merged into one message
+        mjobs, mmeta = [], []
+        for h in hists + (hists_peer if proto == "ipfix" else []):
+            if any(h[n]["e"] == h[n + 1]["e"] and h[n]["op"] in ("announce", "data") and h[n + 1]["op"] in ("announce", "data")
+                   for n in range(len(h) - 1)):
+                job, groups = job_merged(proto, h, a4)
+                mjobs.append(job)
+                mmeta.append((h, groups))
+        for h in hists_one:
+            n = len(h)
+            for mask in range(1 << (n - 1)):
+                cuts = {i + 1 for i in range(n - 1) if mask >> i & 1}
+                job, groups = job_merged(proto, h, a4, cuts)
+                mjobs.append(job)
+                mmeta.append((h, groups))
+        res = flowjobs.run_jobs(ctx, drv, codec.P[proto]["jobs"], mjobs, tag="c04m_" + proto, timeout=3000)
+        for (h, groups), job, r in zip(mmeta, mjobs, res):
+            judge_merged(ctx, proto, h, a4, job, groups, r)
+        ctx.traces_validated += len(mjobs)
     ctx.sample({"history": hists[len(hists) // 2], "exporters": a4})
     # ---- B: interleaved multi-exporter histories validated by the reference collector
     for proto in ("ipfix", "v9"):
